@@ -73,9 +73,9 @@ class Traced:
 
 
 # ---------------------------------------------------------------------------
-def make_world(rng, ties_ok=True):
+def make_world(rng, ties_ok=True, n_cond=None):
     n_rdm = int(rng.integers(3, 8))
-    n_cond = int(rng.integers(5, 9))
+    n_cond = int(rng.integers(5, 9)) if n_cond is None else n_cond
     rgk = gen.pick(rng, ['singleton', 'singleton', 'pairs', 'few'])
     pgk = gen.pick(rng, ['singleton', 'singleton', 'pairs'])
     rg = gen.group_labels(rng, n_rdm, rgk)
@@ -439,6 +439,30 @@ def run_fixed(ctx):
         ctx.fail('eval_fixed', dict(sig, what='ceiling_value'), 'noise ceiling is not the one of the data', wit())
     elif not sample_ok(ctx, 'eval_fixed', sig, w, ncs[0]['call']['args'][0], wit):
         return
+    # a sweep over parameter values reuses the model objects and the caller's own parameter arrays, edited in place:
+    # the stored evaluations are those of the parameters as they are at the time of the call
+    flex = [j for j, t in enumerate(thetas) if isinstance(t, np.ndarray) and t.size > 1 and not np.array_equal(t, t[::-1])]
+    if flex:
+        th2 = thetas            # the very arrays of the call above
+        try:
+            for j in flex:
+                th2[j][:] = th2[j][::-1].copy()
+            res2 = E.eval_fixed(models, data_obj(w), theta=th2, method=method)
+        except Exception as exc:
+            ctx.fail('eval_fixed', dict(sig, what='raised_on_parameter_sweep', exception=type(exc).__name__), repr(exc), wit())
+            return
+        ctx.case('eval_fixed', dict(sig, parameter_sweep=True))
+        for j in flex:
+            p = full_prediction(models[j], th2[j])
+            for r in range(n):
+                want = ref_mean_similarity(method, p, [w['data'][r]])
+                if want is not None and not close(res2.evaluations[0, j, r], want, tol, tol):
+                    ctx.fail('eval_fixed', dict(sig, what='stale_parameters'), f'after the caller changed the entries of its '
+                             f'parameter array in place, evaluations[0,{j},{r}] = {res2.evaluations[0, j, r]!r}; the '
+                             f'similarity at the parameters now in the array is {want!r}', wit(theta_now=th2[j]))
+                    return
+        for j in flex:          # back to the original values for what follows
+            th2[j][:] = th2[j][::-1].copy()
     # the data object lives on: the user edits it in place (new values written into the array, conditions reordered)
     # and evaluates again.  Result and noise ceiling must be those of the object as it is NOW, i.e. equal to what a
     # freshly built object with the same content gives
@@ -610,20 +634,22 @@ def run_too_small_folds(ctx):
                  f'instead of being marked NaN', wit())
 
 
-def run_boot_cv(ctx, routine, tap):
+def run_boot_cv(ctx, routine, tap, few=False):
     rng = ctx.rng
-    w = make_world(rng, ties_ok=False)
+    # few: four conditions, no cross-validation -- about one draw in three holds fewer than three distinct conditions and is
+    # marked NaN; the variances are those of the draws that remain
+    w = make_world(rng, ties_ok=False, n_cond=4 if few else None)
     specs = make_models(rng, w, True)
     models = [s[0] for s in specs]
     fit_arg = [s[2] for s in specs]
     fitters = det_fitters(specs)
     has_weighted = any(isinstance(m, ModelWeighted) for m in models)
     method = gen.pick(rng, ['cosine', 'corr'] if has_weighted else ['cosine', 'corr', 'rho-a'])
-    grouped = bool(rng.integers(3) == 0)
+    grouped = bool(rng.integers(3) == 0) and not few
     rdesc, pdesc = ('grp', 'pgrp') if grouped else ('uid', 'puid')
     n_rg = unique_groups(w, 'rdm') if grouped else w['n_rdm']
     n_pg = unique_groups(w, 'pattern') if grouped else w['n_cond']
-    N = int(rng.integers(3, 8))
+    N = int(rng.integers(3, 8)) if not few else 14
     n_cv = int(rng.integers(1, 4))
     boot_type = gen.pick(rng, ['both', 'pattern', 'rdm']) if routine != 'eval_dual_bootstrap' else 'both'
     use_corr = bool(n_cv > 1 and rng.integers(2))
@@ -644,7 +670,7 @@ def run_boot_cv(ctx, routine, tap):
         fn = E.eval_dual_bootstrap_random
         k_r = k_p = None
     else:
-        k_r = int(rng.integers(1, min(2, n_rg) + 1))
+        k_r = int(rng.integers(1, min(2, n_rg) + 1)) if not few else 1
         k_p = int(rng.integers(1, 3)) if n_pg >= 6 else 1
         kw.update(k_pattern=k_p, k_rdm=k_r)
         if routine == 'bootstrap_crossval':
@@ -954,3 +980,5 @@ def run(ctx):
             run_boot_cv(ctx, 'eval_dual_bootstrap_random', tap)
             if it % 2 == 0:
                 run_boot_cv(ctx, 'eval_dual_bootstrap', tap)
+            else:
+                run_boot_cv(ctx, 'eval_dual_bootstrap', tap, few=True)
